@@ -91,6 +91,8 @@ def gen_scenario(rng, parallel=False, small=False):
         sc['flags'] = ['--setup-only']
     if parallel:
         sc['cpu'] = rng.choice([5, 5, 8, 3])
+    if rng.random() < 0.4:
+        sc['conf_subdir'] = rng.choice(['cfg', 'conf/nested'])
     if not sc['flags'] and rng.random() < 0.3:
         add_prior(rng, sc)
     return sc
@@ -194,7 +196,13 @@ def env_list(env):
 def run_impl(ck, sc, idx):
     wd = os.path.join(ck.scratch, 'w%d' % idx)
     os.makedirs(wd, exist_ok=True)
-    conf = drive.write_config(wd, make_config(sc))
+    # the configuration file need not live in ReBench's working directory: builds without
+    # path / location run in the *working directory* (docs/config.md), not next to the file
+    cfgdir = wd
+    if sc.get('conf_subdir'):
+        cfgdir = os.path.join(wd, sc['conf_subdir'])
+        os.makedirs(cfgdir, exist_ok=True)
+    conf = drive.write_config(cfgdir, make_config(sc))
     table = {(r['script'], resolve(wd, r['dir'])): r['res'] for r in sc['results']}
     missing = set(resolve(wd, r['dir']) for r in sc['results'] if r['res'] == 'oserr')
 
@@ -427,6 +435,8 @@ def check_batch(ck, scenarios, base_idx=0, search=True):
         inp['picks'] = bs.picks if bs.threads else sc.get('picks')
         parallel = bs.threads > 0
         ck.count('sched:' + ('parallel/' if parallel else '') + sc['sched'])
+        if sc.get('conf_subdir'):
+            ck.count('config-file-outside-cwd')
         if sc.get('prior'):
             ck.count('resumed-session')
             ck.count('resumed:runs-partly-recorded', sum(1 for k in (order or []) if 0 < bs.done0.get(k, 0) < find(sc['suites'], k[1])['inv']))
@@ -449,7 +459,7 @@ def check_batch(ck, scenarios, base_idx=0, search=True):
         ck.count('distinct-builds:%d' % shared)
         for r in sc['results']:
             ck.count('result:' + r['res'])
-        ck.case(nontrivial_key=json.dumps([make_config(sc), sc['results'], sc['flags'], sc['sched'], inp['picks'], sc.get('prior')],
+        ck.case(nontrivial_key=json.dumps([make_config(sc), sc['results'], sc['flags'], sc['sched'], inp['picks'], sc.get('prior'), sc.get('conf_subdir')],
                                           sort_keys=True) if shared else None,
                 sample={'config': make_config(sc), 'results': sc['results'], 'events': evs[:8]})
         bad = oracle(ck, sc, wd, bs, order, evs, inp)
@@ -585,6 +595,9 @@ def pattern_scenarios():
             sc['flags'] = flags
             sc['results'] = [{'script': b[0], 'dir': b[1], 'res': 'ok'} for b in builds]
             out.append(sc)
+    for i, sc in enumerate(out):
+        if i % 3 == 1:
+            sc['conf_subdir'] = 'cfg'
     return out
 
 
